@@ -45,7 +45,9 @@ def gen_key(rng, i):
     if style == "hierlong":
         return ("LONGKEY%d" % i) + "".join(rng.choice(ALNUM + "_") for _ in range(rng.rint(5, 50)))
     # keys the reader and the estimate both skip (reserved prefixes) but that do not disturb the table itself
-    return rng.choice(["TYPEX", "EXTENDX", "COMMENTS", "SIMPLEX", "BITPIXEL"])[:8]
+    # ... and the exactly matched names of the HDU-name cards (reserved since the fix of C06:aux-key:EXTNAME-shadows-KNOTSn): a primary
+    # header of a foreign file may carry them; with a value that names none of the images looked for (gen_file) they are skipped, not stored
+    return rng.choice(["TYPEX", "EXTENDX", "COMMENTS", "SIMPLEX", "BITPIXEL", "EXTNAME", "HDUNAME", "EXTNAME"])[:8]
 
 def gen_value(rng):
     style = rng.choice(["empty", "short", "short", "num", "long", "max", "quote", "spaces", "huge"])
@@ -124,8 +126,9 @@ def gen_line(path, f):
     return " ".join(w)
 
 RESERVED = ["BITPIX", "SIMPLE", "TYPE", "ORDER", "NAXIS", "PERIOD", "EXTEND", "COMMENT"]
+RESERVED_EXACT = ["", "END", "HISTORY", "CONTINUE", "PCOUNT", "GCOUNT", "EXTNAME", "HDUNAME"]     # of these the generator produces EXTNAME / HDUNAME only
 def expected_naux(f):
-    return sum(1 for k, _ in f["aux"] if not any(k.startswith(p) for p in RESERVED))
+    return sum(1 for k, _ in f["aux"] if not any(k.startswith(p) for p in RESERVED) and k not in RESERVED_EXACT)
 
 # ------------------------------------------------------------------------------------------------ execution
 def parse_blocks(txt):
